@@ -132,10 +132,26 @@ def parseSToks (s : String) : Option (List STok) :=
       | _, _ => none
     | _ => none)
 
+/-- offsets and positions only (the token texts, slices of the whole text, are not computed):
+the same `scanAux` / `regexAux` / `ngramOffsets` the token lists are mapped from -/
+def offsetsOnly (args : List String) : Option (List (Nat × Nat × Nat)) :=
+  match args with
+  | ["simple", c, a] => (parseText c a).map (scanAux (fun c => c.alnum) none 0 0)
+  | ["whitespace", c, a] => (parseText c a).map (scanAux (fun c => !isAsciiWs c.code) none 0 0)
+  | ["ngram", mn, mx, pf, c, a] =>
+    match mn.toNat?, mx.toNat?, parseText c a with
+    | some mn, some mx, some s =>
+      if 0 < mn ∧ mn ≤ mx ∧ (pf == "0" ∨ pf == "1") then
+        some ((ngramOffsets s mn mx (pf == "1")).map (fun p => (p.1, p.2, 0)))
+      else none
+    | _, _, _ => none
+  | ["regex", ms, _, _] => ((natList ms).bind pairs).map (regexAux 0 0)
+  | _ => (tokenize args).map (fun ts => ts.map (fun t => (t.from_, t.to, t.pos)))
+
 def handle : List String → String
   | "tok" :: args =>
-    match tokenize args with
-    | some ts => showOffsets ts
+    match offsetsOnly args with
+    | some ts => showNatList (ts.flatMap (fun t => [t.1, t.2.1, t.2.2]))
     | none => "bad-op"
   | "tokt" :: args =>
     match tokenize args with
